@@ -1420,6 +1420,13 @@ class System:
             for c in o.contents.values():
                 readd(c)
         readd(prev)
+        # Docstring problems already reported for the superseded definition (and its members) are recorded
+        # under the name the new definition takes over: let the record follow the old definition to its new name,
+        # otherwise the problems of the new definition would be taken for already reported.
+        for reported in self.parse_errors.values():
+            for name in [n for n in reported if n == fullName or n.startswith(fullName + '.')]:
+                reported.discard(name)
+                reported.add(prev.fullName() + name[len(fullName):])
         for _, o in below:
             self.allobjects[o.fullName()] = o
         self.allobjects[fullName] = obj
